@@ -402,7 +402,8 @@ def payload_accounting(F, R, ver, ve):
     R.floor('C10.payload-accounting', '%s PublishPayload arm paths' % ver, len(paths), 4)
     complaints = {}
     combos = 0
-    for L, Rm, M in itertools.product(range(0, 9), range(1, 8), range(0, 6)):
+    big = R.tier == 'thorough'
+    for L, Rm, M in itertools.product(range(0, 21 if big else 9), range(1, 17 if big else 8), range(0, 13 if big else 6)):
         ctx = dict(L=L, M=M, state={('PublishPayload', '0'): Rm})
         combos += 1
         feas = []
@@ -450,8 +451,8 @@ def payload_accounting(F, R, ver, ve):
     R.floor('C10.payload-accounting', '%s %s arm paths' % (ver, arm), len(paths), 5)
     complaints = {}
     combos = 0
-    hs = range(0, 4)
-    for H, RL, Lx, M in itertools.product(hs, range(0, 9), range(0, 10), range(0, 5)):
+    hs = range(0, 6 if big else 4)
+    for H, RL, Lx, M in itertools.product(hs, range(0, 15 if big else 9), range(0, 17 if big else 10), range(0, 9 if big else 5)):
         if ver == 'v5':
             state = {(arm, '0'): H, (arm, '1'): dict(first_byte=0x30, remaining_length=RL)}
         else:
@@ -685,4 +686,4 @@ def run(F, R):
         payload_accounting(F, R, ver, ve)
     feed(F, R)
     R.assume('path conditions that depend on the decoded PUBLISH header fields (opaque callee results) are treated as undecided: both outcomes are examined')
-    R.assume('domains: buffered 0..9, owed/remaining 0..8, header 0..3, min_chunk_size 0..5; the extracted conditions are comparisons and min() only, so larger values repeat these orderings')
+    R.assume('domains (quick): buffered 0..9, owed/remaining 0..8, header 0..3, min_chunk_size 0..5; (thorough): buffered 0..20, owed 0..16, header 0..5, min_chunk_size 0..12; the extracted conditions are comparisons and min() only, so larger values repeat these orderings')
